@@ -8,7 +8,9 @@ CONSTANTS
   PHeights = {}
   PAns = {}
   PPub = {}
-INVARIANTS ConformFF ConformCreate ConformTx ConformDone TxSpendsAll TxNoDust TxWithinBudget
+INVARIANTS SweepMaxIsConfigured SweepBudgetIsInputs SweepDeadlineIsInputs TxSpendsAll TxNoDust TxWithinBudget TxRateLeCfgMax TxPaysOfferedRate
+  ConformFF ConformCreate ConformTx ConformDone
   FFMonotone FFBelowEnd FFAboveFloor FFCeilAtWidth FFCeilByDeadline FFShape
   PubFeeLeBudget PubRateLeMax PubRateLeCeil PubNoDust PubSomeOutput PubMonotone PubAboveFloor PubFeeExact PubCeilByDeadline RegroupStart RegroupNoDecrease PubRegroupNoDecrease
+  PubRateLeCfgMax PubFeeLeInputBudget PubTxRateLeCfgMax
 CHECK_DEADLOCK TRUE
